@@ -107,3 +107,37 @@ Definition judge_sc_prefix (c : sccase_t) : Z :=
 (* model outputs for replay files *)
 Definition show_unescape (c : ucase_t) := let '(isb, s, _, _) := c in unescape true s isb.
 Definition show_sc (c : sccase_t) := let '(_, lines, _, t, _, _, _) := c in read_into fixed (lib_of t) lines.
+
+(* ---- bound rows of a declaration (Front/DeclRows.v) against analysis.CheckDecl,
+   symbols.CheckAndDesugar and the analysis pipeline.
+   case = (the declaration carries desugared(), arity, rows (entry classes 0 CW / 1 CRefOk /
+           2 CRefSv / 3 CRefCy / 4 CBad),
+           CheckDecl reported "expected n bounds", CheckDecl reported a bound that is not well formed,
+           outcome of symbols.CheckAndDesugar called directly on the declarations 0 ok / 1 error / 2 panic,
+           outcome of the pipeline analysis.AnalyzeOneUnit / AnalyzeAndCheckBounds 0 ok / 1 error / 2 panic)
+   Codes: 2 = the pipeline panicked (property violated); 1 = CheckDecl's row test or the row loop
+   differ from the model (the pipeline returned); 0 = agree. *)
+From MV Require Export Front.DeclRows.
+
+Definition cell_of (z : Z) : cellk :=
+  if z =? 0 then CW else if z =? 1 then CRefOk else if z =? 2 then CRefSv else if z =? 3 then CRefCy else CBad.
+Definition dres_code (d : dres) : Z := match d with DOk => 0 | DErr => 1 | DPanic => 2 end.
+
+Definition declcase_t := (bool * Z * list (list Z) * bool * bool * Z * Z)%type.
+
+Definition judge_decl (c : declcase_t) : Z :=
+  let '(desugared, ar, rows, e_len, e_wf, direct, pipe) := c in
+  let a := Z.to_nat ar in
+  let rs := map (map cell_of) rows in
+  if pipe =? 2 then 2
+  else if negb (Bool.eqb e_len (rowlen_error a rs)) then 1
+  else if negb (Bool.eqb (e_len || e_wf) (negb (check_rows false a rs))) then 1
+  else if negb (direct =? dres_code (desugar_rows desugared a rs)) then 1
+  else if (negb (e_len || e_wf)) && negb (pipe =? 2) && (dres_code (front_decl false desugared a rs) =? 2) then 1
+  else 0.
+
+Definition show_decl (c : declcase_t) :=
+  let '(desugared, ar, rows, _, _, _, _) := c in
+  let a := Z.to_nat ar in
+  let rs := map (map cell_of) rows in
+  (rowlen_error a rs, check_rows false a rs, desugar_rows desugared a rs, front_decl false desugared a rs).
